@@ -361,6 +361,12 @@ def field_entry(f, oneof=None):
     if kind == "map":
         e["map_key"] = f["map_key"]
         e["map_value"] = f["map_value"]
+    # attributes this translator (and the Lean codec the theorems are about) does not model, e.g. `default = ".."`,
+    # `boxed`, `group`: recorded so that the generated table `unmodelledAttrs` is non-empty and the C20 table theorem
+    # `no_unmodelled_attributes` stops checking
+    extra = ["%s=%s" % kv for kv in sorted((f.get("other") or {}).items())] + sorted(f.get("flags") or [])
+    if extra:
+        e["unmodelled"] = extra
     return e
 
 
